@@ -97,6 +97,11 @@ func checkC08(r *Run) error {
 	if err != nil {
 		return err
 	}
+	if err := r.decoders(nonMap, []basis.Options{{}}, func(o *vc.Obligation) bool {
+		return strings.Contains(o.Func, "DecodeBebop") || isMakeStream(o.Func)
+	}); err != nil {
+		return err
+	}
 	// the latch itself: ErrorWriter/ErrorReader and the stream helpers of iohelp
 	r.byteTheory = true
 	e, err := r.loadEngine(r.Repo, "./iohelp")
@@ -106,12 +111,68 @@ func checkC08(r *Run) error {
 	err = r.verify(e, []string{iohelpPkg}, Selection{FuncFilter: func(k string) bool {
 		return strings.Contains(k, "ErrorWriter") || strings.Contains(k, "ErrorReader") || (!strings.Contains(k, "Bytes") && (strings.Contains(k, ".Write") || strings.Contains(k, ".Read")))
 	}}, false)
-	r.Explanation = "Typestate argument over ghost writer state: every generated EncodeBebop returns a non-nil error whenever the underlying io.Writer reported a failure during the call (object invariant failed(w) ==> ew.Err != nil of iohelp.ErrorWriter, preserved by every stream helper and by nested encoders, which share the wrapper), and when it returns nil the bytes accepted by the writer are exactly the reference encoding (= MarshalBebop's trace by C02). The failure point and error value are universally quantified by the assumed io.Writer contract. Decode side (DecodeBebop under reader faults): iohelp stream readers latch every short read (proved); the generated decoders are covered by the SAFE sweep when registered."
-	r.Coverage["not_covered"] = "generated DecodeBebop under reader faults (pending); map-typed fields"
+	r.Explanation = "Typestate argument over ghost writer state: every generated EncodeBebop returns a non-nil error whenever the underlying io.Writer reported a failure during the call (object invariant failed(w) ==> ew.Err != nil of iohelp.ErrorWriter, preserved by every stream helper and by nested encoders, which share the wrapper), and when it returns nil the bytes accepted by the writer are exactly the reference encoding (= MarshalBebop's trace by C02). The failure point and error value are universally quantified by the assumed io.Writer contract. Decode side: every generated DecodeBebop / Make* returns a non-nil error whenever the underlying reader (root of the LimitedReader chain) failed during the call, does not panic under arbitrary faults, and restores the reader it was given when it succeeds."
+	r.Coverage["not_covered"] = "map-typed fields"
+	return err
+}
+
+var decMethods = []string{"UnmarshalBebop", "DecodeBebop"}
+
+func isMake(k string) bool {
+	i := strings.LastIndex(k, ".")
+	return i >= 0 && (strings.HasPrefix(k[i+1:], "Make") || strings.HasPrefix(k[i+1:], "make"))
+}
+
+// decoders selects UnmarshalBebop, DecodeBebop and the Make* wrappers (MustUnmarshalBebop is exempt).
+func (r *Run) decoders(schemaOK func(*basis.Schema) bool, opts []basis.Options, classOK func(o *vc.Obligation) bool) error {
+	gs, err := r.genBasis(schemaOK, opts)
+	if err != nil {
+		return err
+	}
+	var pkgs []string
+	for _, j := range gs.Jobs {
+		pkgs = append(pkgs, j.PkgPath())
+	}
+	sel := Selection{FuncFilter: func(key string) bool {
+		if strings.Contains(key, "Must") || strings.Contains(key, "must") {
+			return false
+		}
+		return strings.HasSuffix(key, ".UnmarshalBebop") || strings.HasSuffix(key, ".DecodeBebop") || isMake(key)
+	}, Keep: classOK}
+	if err := r.verify(gs.E, pkgs, sel, false); err != nil {
+		return err
+	}
+	var names []string
+	for _, j := range gs.Jobs {
+		names = append(names, j.Name)
+	}
+	r.Coverage["basis_packages"] = names
+	r.Assumptions["the quantifier over schemas is bounded to the enumerated basis (DESIGN section 4); maps are not yet covered"] = true
+	r.Assumptions["receivers of decoders are non-nil; the Make* wrappers and nested decoders pass zero values"] = true
+	r.Assumptions["spec-level lemmas about the reference size functions (extensional frame, monotone prefix sums) hold by induction; the induction is not machine-checked"] = true
+	r.Assumptions["assumed contracts: io.ReadFull, io.ReadAll, io.LimitedReader as a pass-through window (ghost stream state keyed by the root of the reader chain)"] = true
+	return nil
+}
+
+// C07: decoding arbitrary bytes never panics or runs away.
+func checkC07(r *Run) error {
+	err := r.decoders(nonMap, r.optsFor(false), nil)
+	r.Explanation = "Precondition-free sweep: every index, slice, nil dereference, type assertion, callee precondition and make() in UnmarshalBebop, DecodeBebop and the Make* wrappers of the basis is an obligation discharged for an arbitrary buffer / an arbitrary reader with arbitrary faults (loops carry cursor invariants derived from the schema description; parents rely on the proved bound Size(decoded) <= len(buf) of nested decoders). Memory: every make() on the byte path requests at most 64 bytes per byte of input still unread (obligation [ALLOC] at each allocation site). Termination: range loops are bounded by their (checked) counts and the message dispatch loop consumes at least one byte per iteration (cursor invariant); not discharged as a separate decreases obligation. Stream path: allocation from a count read off the stream cannot be checked against input that has not arrived (design-level; see DESIGN.md findings)."
+	r.Coverage["not_covered"] = "map-typed fields; MustUnmarshalBebop (documented unchecked variant); allocation bound on the stream path"
+	return err
+}
+
+// C06 (safety half): truncated input never crashes; the error half needs the decode-functional contracts.
+func checkC06(r *Run) error {
+	err := r.decoders(nonMap, r.optsFor(false), nil)
+	r.Explanation = "A strict prefix of a valid encoding is a particular arbitrary byte string / a particular reader that fails with EOF at some offset: the no-panic, bounded-allocation and fault-latching obligations of C07/C08 are discharged for all of them at once (the cut point is universally quantified by the unconstrained buffer and by the assumed io.Reader contract). That a strict prefix yields a NON-NIL error (rather than a nil error with a partial value) needs the decode-functional contracts (input holds wire(v0) up to k < size) and is not yet claimed; stream side: a short read always latches (C20) and DecodeBebop returns the latched error (LATCH)."
+	r.Coverage["not_covered"] = "the 'returns a non-nil error' half on the byte path (pending decode-functional contracts); map-typed fields"
 	return err
 }
 
 func init() {
+	registry["C07"] = checkC07
+	registry["C06"] = checkC06
 	registry["C08"] = checkC08
 	registry["C02"] = checkC02
 	registry["C03"] = checkC03
@@ -165,3 +226,5 @@ func checkC09(r *Run) error {
 	r.Explanation = "The same schema-derived contract (reference trace, size, frame) is verified against the code generated under every option set of the tier (quick: a pairwise-covering set of 6; thorough: all 32): every variant satisfies the one specification, hence all variants emit the same bytes. Decoders are not yet covered."
 	return err
 }
+
+func isMakeStream(k string) bool { return isMake(k) && !strings.HasSuffix(k, "FromBytes") }
